@@ -173,19 +173,39 @@ def _fix_variable_names(
     return source
 
 
+def _import_insertion_line(source: str, lines: Sequence[str]) -> int:
+    """Index in lines before which new imports go: after the leading comments, the module docstring and the
+    __future__ imports, each of which may span several lines."""
+    try:
+        body = core.parse(source).body
+    except SyntaxError:
+        body = []
+
+    last_lineno = 0  # Line number of the last line that must stay above the imports
+    for i, node in enumerate(body):
+        is_docstring = i == 0 and core.match_template(node, ast.Expr(value=ast.Constant(value=str)))
+        is_future_import = isinstance(node, ast.ImportFrom) and node.module == "__future__"
+        if not (is_docstring or is_future_import):
+            # Another statement on the line where the docstring or __future__ import ends cannot be split off
+            if node.lineno <= last_lineno:
+                last_lineno = max(last_lineno, node.end_lineno)
+                continue
+            break
+        last_lineno = max(last_lineno, node.end_lineno)
+
+    lineno = min(last_lineno, len(lines))
+    while lineno < len(lines) and lines[lineno].startswith("#"):
+        lineno += 1
+
+    return lineno
+
+
 def _fix_undefined_variables(source: str, variables: Collection[str]) -> str:
     variables = set(variables)
 
     lines = source.splitlines()
     change_count = -len(lines)
-    lineno = next(
-        i
-        for i, line in enumerate(lines)
-        if not line.startswith("#")
-        and not line.startswith("'''")
-        and not line.startswith('"""')
-        and not line.startswith("from __future__ import")
-    )
+    lineno = _import_insertion_line(source, lines)
     for package, package_variables in constants.ASSUMED_SOURCES.items():
         overlap = variables.intersection(package_variables)
         if overlap:
